@@ -1,6 +1,8 @@
 package main
 
 import (
+	"runtime"
+	"reflect"
 	"os"
 	"bufio"
 	"bytes"
@@ -60,6 +62,17 @@ func observe(m *handler.Message, key, scenario string) c15Event {
 	}
 	ev.Panic = tr.Recover(func() {
 		before := append([]byte{}, m.RawData...)
+		// (String() decodes the message if that has not been done; doing it first lets the decoded fields be compared
+		// before and after the display)
+		decBefore := ""
+		if m.Readable == nil {
+			handler.Analyse(m)
+		}
+		if m.Readable != nil {
+			if b, err := json.Marshal(m.Readable); err == nil {
+				decBefore = dig(b)
+			}
+		}
 		t1 := m.String()
 		t2 := m.String()
 		dec := "nil"
@@ -73,7 +86,14 @@ func observe(m *handler.Message, key, scenario string) c15Event {
 		if m.ErrorMessage != "" {
 			dec += "|err:" + m.ErrorMessage
 		}
-		ev.RawSame = bytes.Equal(before, m.RawData) && t1 == t2
+		decAfter := ""
+		if m.Readable != nil {
+			if b, err := json.Marshal(m.Readable); err == nil {
+				decAfter = dig(b)
+			}
+		}
+		// displaying changes neither the raw bytes nor the decoded fields, and gives the same text again
+		ev.RawSame = bytes.Equal(before, m.RawData) && t1 == t2 && decBefore == decAfter
 		ev.Text = dig([]byte(stripTime(t1)))
 		ev.Dec = dec
 	})
@@ -366,6 +386,18 @@ func c15(args []string) {
 				c.RawData[k] ^= 0xff // the owner of the copy scribbles on it
 			}
 			emit(observe(m, key(i, lv), "original-after-copy-was-overwritten"))
+			// a copy made AFTER the original has been displayed: its owner wipes everything it can reach through it
+			// (the decoded object too); the original still reads as before
+			var c2 handler.Message
+			if p := tr.Recover(func() { c2 = m.Copy() }); p == "" {
+				for k := range c2.RawData {
+					c2.RawData[k] = 0
+				}
+				if rv := reflect.ValueOf(c2.Readable); rv.IsValid() && rv.Kind() == reflect.Ptr && !rv.IsNil() && rv.Elem().CanSet() {
+					rv.Elem().Set(reflect.Zero(rv.Elem().Type()))
+				}
+				emit(observe(m, key(i, lv), "original-after-late-copy-was-wiped"))
+			}
 		}
 	}
 
@@ -398,10 +430,17 @@ func c15(args []string) {
 	// consumer 2 must still see the canonical message; the file handler decodes at debug level.
 	var stream []byte
 	var idx []int
+	prevJunk := true // (a stream starting with other data is fine, two runs of other data in a row would merge)
 	for i, f := range pool {
-		if len(f) > 0 && f[0] == 0xd3 && i%2 == 0 { // junk would merge; CRC-failing frames arrive as non-RTCM with the same bytes
+		isFrame := len(f) > 0 && f[0] == 0xd3
+		if isFrame && i%2 == 0 { // CRC-failing frames arrive as non-RTCM with the same bytes
 			stream = append(stream, f...)
 			idx = append(idx, i)
+			prevJunk = false
+		} else if !isFrame && len(f) > 0 && !prevJunk && i%3 == 0 && bytes.IndexByte(f, 0xd3) < 0 {
+			stream = append(stream, f...) // a run of other data between frames
+			idx = append(idx, i)
+			prevJunk = true
 		}
 	}
 	ch1 := make(chan handler.Message)
@@ -432,16 +471,18 @@ func c15(args []string) {
 			mm.RawData = nil
 		}
 	}()
-	go func() { // consumer 2
+	go func() { // consumer 2 keeps every message until the stream has ended (a queue of recent messages) and looks then
 		defer cw.Done()
-		n := 0
+		var held []handler.Message
 		for m := range ch2 {
-			mm := m
+			held = append(held, m)
 			time.Sleep(50 * time.Microsecond) // let consumer 1 get ahead
-			if n < len(idx) {
-				emit(observe(&mm, key(idx[n], slog.LevelDebug), "fanout"))
+		}
+		n := len(held)
+		for k := range held {
+			if k < len(idx) {
+				emit(observe(&held[k], key(idx[k], slog.LevelDebug), "fanout"))
 			}
-			n++
 		}
 		if n != len(idx) {
 			emit(c15Event{Key: "fanout-count", Text: fmt.Sprint(n), Dec: fmt.Sprint(len(idx)), RawSame: n == len(idx), Scenario: "fanout"})
@@ -449,4 +490,67 @@ func c15(args []string) {
 	}()
 	cw.Wait()
 	<-done
+
+	// E: two handlers framing two different streams at the same time (two serial ports in one program): each gets its own
+	// bytes, whole, in order - nothing of the framing machinery is shared between handlers
+	var streamB []byte
+	var idxB []int
+	for i, f := range pool {
+		if len(f) > 0 && f[0] == 0xd3 && i%2 == 1 {
+			streamB = append(streamB, f...)
+			idxB = append(idxB, i)
+		}
+	}
+	type side struct {
+		in   []byte
+		idx  []int
+		held []handler.Message
+	}
+	sides := []*side{{in: stream, idx: idx}, {in: streamB, idx: idxB}}
+	var ew sync.WaitGroup
+	for _, sd := range sides {
+		ew.Add(1)
+		go func(sd *side) {
+			defer ew.Done()
+			chIn := make(chan byte)
+			chOut := make(chan handler.Message, 8)
+			h := handler.New(start, slog.LevelDebug)
+			go func() {
+				defer func() { recover() }()
+				h.HandleMessages(chIn, chOut)
+			}()
+			go func() {
+				for k, b := range sd.in {
+					chIn <- b
+					if k%97 == 0 {
+						runtime.Gosched()
+					}
+				}
+				close(chIn)
+			}()
+			deadline := time.After(60 * time.Second)
+			for {
+				select {
+				case m, ok := <-chOut:
+					if !ok {
+						return
+					}
+					sd.held = append(sd.held, m)
+				case <-deadline:
+					return
+				}
+			}
+		}(sd)
+	}
+	ew.Wait()
+	for si, sd := range sides {
+		for k := range sd.held {
+			if k < len(sd.idx) {
+				emit(observe(&sd.held[k], key(sd.idx[k], slog.LevelDebug), "two-streams-at-once"))
+			}
+		}
+		if len(sd.held) != len(sd.idx) {
+			emit(c15Event{Key: fmt.Sprint("two-streams-count-", si), Text: fmt.Sprint(len(sd.held)), Dec: fmt.Sprint(len(sd.idx)), RawSame: false, Scenario: "two-streams-at-once"})
+		}
+	}
 }
